@@ -105,6 +105,11 @@ class Engine(HeapMixin, ExprMixin, StmtMixin, CallMixin, BuiltinMixin):
             ob.detail = self.smt2(goal)
             ob.reason = getattr(self, 'last_reason', '') or ''
         self.obligations.append(ob)
+        if verdict != 'proved':
+            # the goal is assumed below so that later obligations are judged on their own; from here
+            # on the path condition may be unsatisfiable because of that - the vacuity guards must
+            # not mistake it for a contradictory contract
+            p.tainted = True
         p.assume(goal)
         return verdict
 
